@@ -148,9 +148,6 @@ Definition check_corr (c : case) : bool :=
 (* ------------------------------------------------------------------------------------------------------------------ *)
 (* specification *)
 
-Fixpoint no_empty_below (t : tree) : bool :=    (* no descendant without waveform and without children *)
-  forallb (fun c => (has_wf c || negb (is_leaf c)) && no_empty_below c) (t_ch t).
-
 Definition samples_of (sr : Q) (t : tree) : Q := (duration t * sr)%Q.
 
 (* when is the rewrite entitled to fail, as a predicate on the input alone *)
@@ -186,7 +183,7 @@ Definition post (o : opk) (n_before n : tree) (dp : Z) (bal : bool) : bool :=
   | OUnrollChildren => t_rep n =? 1
   | OEncapsulate => (depth n =? depth n_before + 1) && (length (t_ch n) =? 1)%nat
   | OSplit _ => (length (t_ch n) =? S (length (t_ch n_before)))%nat
-  | OCleanup rm _ => if rm then no_empty_below n else true
+  | OCleanup rm mg => (if rm then no_empty_below n else true) && (if mg then negb (mergeable n) else true)
   | _ => true
   end.
 
